@@ -14,12 +14,14 @@
    tree diff sees it.  POSIX semantics: "" and "." vanish, ".." pops (the root is a fixpoint),
    an absolute member replaces the destination in join(), a path starting with exactly two
    slashes keeps them under normpath (and therefore never has dst as a prefix), and "\" is an
-   ordinary character of a name. *)
+   ordinary character of a name - whatever host system the archive header claims for the member
+   (`host`: 0 = MS-DOS/Windows, 3 = Unix; chosen per archive, never consulted by the reference). *)
 EXTENDS Naturals, Sequences, FiniteSets, TLC, Json
 
 CONSTANTS MaxDepth,          \* components per member name, single-member archives
           PairDepth,         \* components per member name, two-member archives (0: no pairs)
           DstForms,          \* subset of {"abs","trail","rel","reldot","dotdot"}
+          HostSystems,       \* subset of {0, 3}: the members' create_system header byte
           ForceTrailingSep,  \* TRUE in the reference: the prefix test is on "dst/"
           NormBeforeCheck,   \* TRUE in the reference: the prefix test is on the normalised target
           EmitCases          \* TRUE: print every terminal state as JSON (P-ENUM)
@@ -31,8 +33,8 @@ Sandbox == Prefix \o <<"S">>
 DstAbs  == Sandbox \o <<"D">>
 SiblingNames == {"D", "Dx"}        \* names having the destination's own name as a string prefix
 
-VARIABLES dstform, members, i, fs, status
-vars == <<dstform, members, i, fs, status>>
+VARIABLES dstform, members, host, i, fs, status
+vars == <<dstform, members, host, i, fs, status>>
 
 CompSeqs(n) == UNION {[1..k -> Comps] : k \in 1..n}
 \* a relative name must not start with an empty component: that spelling *is* an absolute name
@@ -103,6 +105,7 @@ Archives ==
 
 Init == /\ dstform \in DstForms
         /\ members \in Archives
+        /\ host \in HostSystems
         /\ i = 1
         /\ fs = {}
         /\ status = "running"
@@ -118,11 +121,11 @@ Extract ==
                       \cup (IF IsDir(m) THEN {} ELSE {[path |-> t, kind |-> "f"]})
           /\ i' = i + 1
           /\ UNCHANGED status
-  /\ UNCHANGED <<dstform, members>>
+  /\ UNCHANGED <<dstform, members, host>>
 
 Finish == /\ status = "running" /\ i > Len(members)
           /\ status' = "done"
-          /\ UNCHANGED <<dstform, members, i, fs>>
+          /\ UNCHANGED <<dstform, members, host, i, fs>>
 
 Next == Extract \/ Finish
 Spec == Init /\ [][Next]_vars /\ WF_vars(Next)
@@ -150,7 +153,7 @@ Terminates == <>(status # "running")
 Terminal == status # "running"
 EmitTerminal ==
   (EmitCases /\ Terminal) =>
-     PrintT("@@" \o ToJson([dst |-> DstSpelling(dstform), form |-> dstform, members |-> members,
+     PrintT("@@" \o ToJson([dst |-> DstSpelling(dstform), form |-> dstform, members |-> members, host |-> host,
                             status |-> status, failed_at |-> i,
                             fs |-> {<<e.path, e.kind>> : e \in fs}]))
 =============================================================================
